@@ -1,6 +1,8 @@
 package main
 
 import (
+	"fmt"
+	"go/token"
 	"strings"
 
 	"golang.org/x/tools/go/ssa"
@@ -86,6 +88,123 @@ func runC13(w *World, r *Report) {
 			det = "no recover defer"
 		}
 		r.Info("C13.go-recover", "go in "+w.fname(s.fn), s.in.Pos(), "outside the property's anchors: "+det)
+	}
+
+	// recovery code must not itself panic: the one framework operation that panics when repeated is closing a
+	// stream's receive side ((*stream).closeRecv closes a channel, unguarded). A recover handler may therefore
+	// close only a stream that nobody else closes.
+	r.Rule("C13.recover-handler-no-close", "recover handlers close no stream they do not exclusively own (a second close panics inside the handler, uncontained)", 4)
+	{
+		var closers []*ssa.Function
+		for _, fn := range w.RepoFuncs("schema") {
+			if fn.Name() == "closeRecv" && fn.Parent() == nil {
+				closers = append(closers, origin(fn))
+			}
+		}
+		if len(closers) == 0 {
+			undecidedf("C13.recover-handler-no-close: (*stream).closeRecv not found")
+		}
+		// a tiny positive control: StreamReader.Close reaches closeRecv in this reachability relation
+		ctl := w.reach(true, w.Fn("schema", "StreamReader.Close"))
+		okCtl := false
+		for _, c := range closers {
+			if ctl[c] {
+				okCtl = true
+			}
+		}
+		if !okCtl {
+			undecidedf("C13.recover-handler-no-close: control failed: StreamReader.Close does not reach closeRecv in the call graph")
+		}
+		seenLit := map[*ssa.Function]bool{}
+		handlers := 0
+		check := func(spawned *ssa.Function) {
+			_, lit, _ := recoverDefer(spawned)
+			if lit == nil || seenLit[lit] {
+				return
+			}
+			seenLit[lit] = true
+			handlers++
+			construct := "recover handler of " + w.fname(spawned)
+			rs := w.reach(true, lit)
+			var hit *ssa.Function
+			for _, c := range closers {
+				if rs[c] {
+					hit = c
+				}
+			}
+			// the call graph is built without instantiating generics: an interface call on a stream reader
+			// interface is taken to reach the close as well
+			via := ""
+			if hit != nil {
+				via = w.chainTo(hit, lit)
+			}
+			for f := range rs {
+				instrs(f, func(in ssa.Instruction) {
+					c, ok := in.(ssa.CallInstruction)
+					if !ok || !c.Common().IsInvoke() {
+						return
+					}
+					m := c.Common().Method
+					if (m.Name() == "Close" || m.Name() == "close") && m.Pkg() != nil && strings.HasPrefix(m.Pkg().Path(), modPath) {
+						if via == "" {
+							via = w.fname(f) + " invokes " + m.Name() + " on " + c.Common().Value.Type().String()
+						}
+					}
+				})
+			}
+			if via == "" {
+				r.OK("C13.recover-handler-no-close", construct, lit.Pos(), "cannot reach (*stream).closeRecv nor a Close/close interface call of the framework")
+				return
+			}
+			if reason, ok := recoverCloseOwners[w.fname(spawned)]; ok {
+				r.Except("C13.recover-handler-no-close", construct, lit.Pos(), reason)
+				return
+			}
+			r.Fail("C13.recover-handler-no-close", construct, lit.Pos(), "the handler can reach (*stream).closeRecv ("+via+"): the stream may already have been closed by its consumer, and closing it again panics inside the recover handler — the node's panic escapes the run (or kills the process from a worker goroutine)")
+		}
+		for _, s := range goSites(w, "compose", "schema") {
+			if s.spawned != nil {
+				check(s.spawned)
+			}
+		}
+		if handlers < 4 {
+			undecidedf("C13.recover-handler-no-close: %d recover handlers found (floor 4)", handlers)
+		}
+	}
+
+	// end of stream is io.EOF itself: an error item whose chain merely contains io.EOF is a failure and must
+	// not end the stream silently
+	r.Rule("C13.eof-identity", "framework code recognises end-of-stream by identity (err == io.EOF), never by errors.Is", 8)
+	{
+		isEOF := func(v ssa.Value) bool {
+			if mi, ok := v.(*ssa.MakeInterface); ok {
+				v = mi.X
+			}
+			u, ok := v.(*ssa.UnOp)
+			if !ok {
+				return false
+			}
+			g, ok := u.X.(*ssa.Global)
+			return ok && g.Pkg != nil && g.Pkg.Pkg.Path() == "io" && g.Name() == "EOF"
+		}
+		for _, fn := range w.RepoFuncs("compose", "schema", "flow", "internal", "components", "callbacks", "utils") {
+			n := 0
+			instrs(fn, func(in ssa.Instruction) {
+				switch x := in.(type) {
+				case *ssa.BinOp:
+					if (x.Op == token.EQL || x.Op == token.NEQ) && (isEOF(x.X) || isEOF(x.Y)) {
+						n++
+						r.OK("C13.eof-identity", fmt.Sprintf("end-of-stream test #%d in %s", n, w.fname(fn)), x.Pos(), "identity comparison with io.EOF")
+					}
+				case *ssa.Call:
+					name := calleeFullName(x)
+					if (name == "errors.Is" || name == "errors.As") && len(x.Call.Args) == 2 && isEOF(x.Call.Args[1]) {
+						n++
+						r.Fail("C13.eof-identity", fmt.Sprintf("end-of-stream test #%d in %s", n, w.fname(fn)), x.Pos(), "errors.Is(err, io.EOF) treats every error that wraps io.EOF as the end of the stream: a node failure delivered as such an error item is swallowed and the run succeeds with truncated output")
+					}
+				}
+			})
+		}
 	}
 
 	// node-path
@@ -271,4 +390,10 @@ func pathFromBlock(q pathQuery, b *ssa.BasicBlock) (bool, string) {
 	// continue after the last instruction of b (its successors)
 	q.from = last
 	return q.exists()
+}
+
+// recover handlers that legitimately close a stream: they are that stream's only closer
+var recoverCloseOwners = map[string]string{
+	"(*schema.streamReaderWithConvert[T]).toStream$1": "the forwarding goroutine owns its source: toStream hands srw over to the goroutine and nothing else closes it (C08.forwarder-protocol requires exactly this close on every exit)",
+	"(*schema.childStreamReader[T]).toStream$1":       "the forwarding goroutine owns its child reader; the close is counted (atomic) by the parent (C08.copy-cell)",
 }
